@@ -403,19 +403,39 @@ fn delta_explained(before: &[(String, i128, bool)], capacity: usize, evicted: &B
 }
 
 /// Applies `sym` to the live world and checks everything the property says about this step.
+thread_local! {
+    /// did the operation of the last `step` report an error or panic? (the fault section tolerates that)
+    static LAST_FAILED: std::cell::Cell<bool> = const { std::cell::Cell::new(false) };
+}
+
 fn step(live: &mut Live, cfg: &Config, sym: &Sym, rep: &mut Report) -> Vec<(String, String)> {
     let mut bad = Vec::new();
     let keys = cfg.keys();
     let before = world::snapshot(&live.w);
     let ro_before = if cfg.front == FrontKind::Stack { Some(world::snapshot(&live.ro)) } else { None };
     let (got, trace, src) = exec(live, cfg, sym);
+    LAST_FAILED.with(|f| f.set(matches!(got, Got::Err(_) | Got::Panic(_))));
     rep.transitions += trace.len() as u64;
     let after = world::snapshot(&live.w);
     let wroot = live.w.to_string_lossy().into_owned();
     // --- evictions visible in the trace
     let mut evicted_by_dir: BTreeMap<String, BTreeSet<String>> = BTreeMap::new();
     let mut listed: BTreeSet<String> = BTreeSet::new();
+    let mut requeued_by_dir: BTreeMap<String, Vec<String>> = BTreeMap::new();
     for e in &trace {
+        if e.kind == Kind::Utimens && e.ok() && e.sets_mtime {
+            if let Some(p) = &e.path {
+                if p.starts_with(&wroot) && !p.contains("/.kismet_temp/") {
+                    let rel = p[wroot.len()..].trim_start_matches('/');
+                    let pp = Path::new(rel);
+                    let dir = pp.parent().map(|d| d.to_string_lossy().into_owned()).unwrap_or_default();
+                    let name = pp.file_name().unwrap().to_string_lossy().into_owned();
+                    if !name.starts_with('.') {
+                        requeued_by_dir.entry(dir).or_default().push(name);
+                    }
+                }
+            }
+        }
         if e.kind == Kind::Opendir && e.ok() {
             if let Some(p) = &e.path {
                 if p.starts_with(&wroot) && !p.ends_with(".kismet_temp") {
@@ -446,23 +466,10 @@ fn step(live: &mut Live, cfg: &Config, sym: &Sym, rep: &mut Report) -> Vec<(Stri
             .map(|(rel, v)| (v.1.clone(), before[rel].meta.mtime, before[rel].meta.accessed()))
             .collect();
         let ev = evicted_by_dir.get(dir).cloned().unwrap_or_default();
-        // survivors whose mtime changed (same inode)
-        let mut restamped: Vec<(i128, String)> = Vec::new();
-        for (rel, v) in eb.iter().filter(|(_, v)| &v.0 == dir) {
-            if let Some(a) = after.get(rel) {
-                if a.meta.ino == before[rel].meta.ino && a.meta.mtime != before[rel].meta.mtime {
-                    restamped.push((a.meta.mtime, v.1.clone()));
-                }
-            }
-        }
-        restamped.sort();
-        // a source that is a hard link to the cached file shares its inode: stamping the source (which every
-        // set/put does before publishing) stamps the entry too; that is the caller's doing, not a re-queue
-        let own_linked: Option<String> = match sym.op {
-            HOp::SetLinked(k) | HOp::PutLinked(k) => Some(keys[k as usize].name.clone()),
-            _ => None,
-        };
-        let restamped: Vec<String> = restamped.into_iter().map(|x| x.1).filter(|n| Some(n) != own_linked.as_ref()).collect();
+        // re-queued entries, in order, read off the trace: a re-queue is a timestamp update that sets the
+        // mtime of an entry of this directory (the snapshot alone would miss an entry that is re-queued and
+        // then replaced by the operation's own set)
+        let restamped: Vec<String> = requeued_by_dir.get(dir).cloned().unwrap_or_default();
         if !listed.contains(dir) {
             if !ev.is_empty() || !restamped.is_empty() {
                 bad.push(("eviction-without-maintenance".into(), format!("entries {:?} removed / {:?} re-queued in {:?} although that directory was not listed", ev, restamped, dir)));
@@ -739,6 +746,71 @@ fn bfs(cfg: &Config, depth: usize, shard: Shard, rep: &mut Report, wall_cap_s: f
     }
 }
 
+/// Two-step histories whose second operation suffers one I/O fault (every call, two errnos each): if it
+/// nevertheless reports success, the map model and the state oracle apply to it exactly as without a fault
+/// ("set returned Ok but lookups still see the old value" is a stale read no eviction explains).
+fn fault_section(shard: Shard, rep: &mut Report) {
+    use crate::props::c18::{plausible, FailAt};
+    use crate::shim::Controller;
+    use std::sync::atomic::AtomicU64;
+    use std::sync::{Arc, Mutex};
+    let mut no = 0u64;
+    for front in [FrontKind::Plain, FrontKind::Sharded(2)] {
+        let cfg = Config { front, cap: CapMode::Roomy, handles: 1, nkeys: 2 };
+        let alpha: Vec<Sym> = alphabet(&cfg).into_iter().filter(|s| !s.fire).collect();
+        for first in alpha.iter().filter(|s| s.is_write()) {
+            for second in &alpha {
+                // fault-free run to learn the second operation's calls
+                let mut scratch = Report::new("scratch");
+                let mut live = open_live(&cfg);
+                step(&mut live, &cfg, first, &mut scratch);
+                let t0 = shim::trace_len();
+                step(&mut live, &cfg, second, &mut scratch);
+                let trace = shim::trace_since(t0);
+                drop(live);
+                for (k, ev) in trace.iter().enumerate() {
+                    if ev.kind == Kind::Read {
+                        continue; // the application reading the handle it got: not a call of the library
+                    }
+                    for a in plausible(ev, false).into_iter().take(2) {
+                        no += 1;
+                        if !shard.mine(no) {
+                            continue;
+                        }
+                        let mut live = open_live(&cfg);
+                        step(&mut live, &cfg, first, &mut scratch);
+                        let ctl = Arc::new(FailAt { faults: vec![(k as u64, a)], kinds: vec![Some(ev.kind)], n: AtomicU64::new(0), hit: Mutex::new(vec![]) });
+                        shim::set_controller(Some(ctl.clone() as Arc<dyn Controller>));
+                        let bad = step(&mut live, &cfg, second, &mut scratch);
+                        shim::set_controller(None);
+                        rep.evaluations += 1;
+                        rep.traces += 1;
+                        rep.count("faulted_second_step_cases", 1);
+                        if LAST_FAILED.with(|f| f.get()) || ctl.hit.lock().unwrap().is_empty() {
+                            continue;
+                        }
+                        // a lookup whose probe was answered with an absence errno may report a miss
+                        let absence = matches!(a, crate::shim::Action::Fail(libc::ENOENT) | crate::shim::Action::Fail(libc::ESTALE));
+                        for (sig, msg) in bad {
+                            if absence && (sig == "lost-entry" || sig == "wrong-result") {
+                                continue;
+                            }
+                            if sig == "temp-leak" || sig == "source-not-consumed" {
+                                continue; // C18's business under faults
+                            }
+                            rep.violation(
+                                format!("history:{}-after-fault", sig),
+                                format!("{} history [{:?}, {:?}] with call {} ({}) of the second operation failing {:?}, which still reported success: {}", cfg.label(), first.op, second.op, k, ev.func, a, msg),
+                                json!({"fault_section": true}),
+                            );
+                        }
+                    }
+                }
+            }
+        }
+    }
+}
+
 pub fn configs(tier: Tier) -> Vec<(Config, usize)> {
     let mut v = Vec::new();
     let q = tier == Tier::Quick;
@@ -772,8 +844,8 @@ pub fn run(tier: Tier, shard: Shard, rep: &mut Report) {
         canonical key (per directory: name, value, mtime rank with ties, read mark; per handle: load estimates) inside each worker; \
         every step is checked against a map model in which an entry may vanish only as a Second Chance victim of a maintenance whose \
         opendir and unlinks are in the call trace (decided by brute force over tie orders), plus: no key in two directories or outside \
-        its two candidates, sources consumed, no temp residue, read-only level untouched. states = distinct canonical keys (union over \
-        workers); non-trivial = states with >= 2 live keys."
+        its two candidates, sources consumed, no temp residue, read-only level untouched. plus two-step histories whose second operation suffers each single I/O fault and still reports success (the same \
+        oracle applies). states = distinct canonical keys (union over workers); non-trivial = states with >= 2 live keys."
         .into();
     rep.assumptions = vec![
         "environment answers (fire / not, shard draw) are enumerated as a superset of what the real countdown can produce".into(),
@@ -786,9 +858,14 @@ pub fn run(tier: Tier, shard: Shard, rep: &mut Report) {
     for (cfg, depth) in cfgs {
         bfs(&cfg, depth, shard, rep, per);
     }
+    fault_section(shard, rep);
 }
 
 pub fn replay(case: &Value, rep: &mut Report) {
+    if case.get("fault_section").is_some() {
+        fault_section(Shard { index: 0, count: 1 }, rep);
+        return;
+    }
     let cfg = parse_cfg(&case["config"]);
     let hist: Vec<Sym> = case["history"].as_array().unwrap().iter().map(Sym::from_json).collect();
     let (_live, bad) = replay_history(&cfg, &hist, rep);
